@@ -372,22 +372,29 @@ def codespanEndRx (marker : Str) : Rx :=
   .seq (.grp 1 (.seq (.rep (.any true) 0 none false) (.cls true [.chr 96])))
     (marker.foldr (fun c r => .seq (.cls false [.chr c.toNat]) r) (.look true true 0 (.cls false [.chr 96])))
 
-/-- `InlineParser.parse_codespan` -/
-def parseCodespan (m : RxMatch) (st : InlineState) : HRes :=
-  let marker := group0 st m
+/-- The pure core of `parse_codespan`: `pattern.match(state.src, pos)` with the run-time end pattern, then the
+normalisation of `m2.group(1)`.  `some (code, end_pos)` when the closing run is found, `none` otherwise -/
+def codespanBody (x : RxCtx) (marker : Str) (pos : Nat) : Option (Str × Nat) :=
   let pattern := codespanEndRx marker
-  let pos := m.stop
-  match pattern.matchAt st.x pos with
+  match pattern.matchAt x pos with
   | some m2 =>
     let endPos := m2.stop
-    let code := (Py.groupStr st.x.s m2 1).getD []
+    let code := (Py.groupStr x.s m2 1).getD []
     -- Line endings are treated like spaces
     let code := Py.replaceAll ['\n'] [' '] code
     let code :=
       if (Py.strip code).length != 0 then
         if Py.startsWith code [' '] && Py.endsWith code [' '] then (code.drop 1).dropLast else code
       else code
-    .ok (some endPos, st.appendToken (tok "codespan" [("raw", .str code)]))
+    some (code, endPos)
+  | none => none
+
+/-- `InlineParser.parse_codespan` -/
+def parseCodespan (m : RxMatch) (st : InlineState) : HRes :=
+  let marker := group0 st m
+  let pos := m.stop
+  match codespanBody st.x marker pos with
+  | some (code, endPos) => .ok (some endPos, st.appendToken (tok "codespan" [("raw", .str code)]))
   | none => .ok (some pos, st.appendToken (textTok marker))
 
 /-- `InlineParser.parse_linebreak` -/
